@@ -188,6 +188,16 @@ def impl(case):
             g, ncomp = build(which, params)
             fc = _forces(es, ns, params)
             if fc is not None:
+                import zlib as _z
+                k_ = _z.crc32(("fcshape" + case["op"]).encode()) % 4
+                nf = len(fc[0])
+                if k_ == 1:      # the force positions as plain Python lists
+                    fc = tuple(x.tolist() for x in fc)
+                elif which == "spline" and k_ == 2:      # ... as column vectors (a table's columns sliced with [:, [j]])
+                    fc = tuple(x.reshape(nf, 1) for x in fc)
+                elif which == "spline" and k_ == 3:      # ... as 2-D arrays (forces on a grid), a single row if their number is prime
+                    r_ = next((q for q in (2, 3, 5) if nf % q == 0 and nf > q), 1)
+                    fc = tuple(x.reshape(r_, nf // r_) for x in fc)
                 g.set_params(force_coords=fc)
             coords = (C.mkarr(es, shape2d, "es:" + case["op"]), C.mkarr(ns, shape2d, "ns:" + case["op"]))
             d = tuple(C.mkarr(x, shape2d, f"d{i}:" + case["op"]) for i, x in enumerate(data[:ncomp]))
